@@ -36,6 +36,50 @@ Proof.
   exact (memo2d_true_dynamic unit (pure_rule2 f) store f (answers_pure f) Hum r ty pred R C hist fuel p0 tt).
 Qed.
 
+(* The same, with the hypothesis on the rule restricted to the neighbourhoods the engine actually builds: f need
+   only be mask-respecting on _get_neighbourhood(g, row, col) of well-shaped R x C grids g and cells row < R, col < C
+   (values = the torus block of the cell, mask = the mask of the neighbourhood type and radius) — nothing is asked
+   about ragged blocks or blocks carrying another mask.  This is the form real rules satisfy (Game of Life and the
+   sandpile read n[r][r] from the data); C04_memo2d_true_transparent above is its corollary. *)
+Theorem C04_memo2d_true_transparent_on_built_neighbourhoods :
+  forall (f : nbhd2 -> Z) (store : Z -> Z) (r : nat) (ty : nbhd_type) (R C : nat) (hist : list grid) (T : nat),
+  (forall g g' row col row' col',
+     (length g = R /\ Forall (fun x => length x = C) g) -> (length g' = R /\ Forall (fun x => length x = C) g') ->
+     row < R -> col < C -> row' < R -> col' < C ->
+     nb_mask (get_neighbourhood g R C r row col ty) = nb_mask (get_neighbourhood g' R C r row' col' ty) ->
+     unmasked (get_neighbourhood g R C r row col ty) = unmasked (get_neighbourhood g' R C r row' col' ty) ->
+     f (get_neighbourhood g R C r row col ty) = f (get_neighbourhood g' R C r row' col' ty)) ->
+  1 <= R -> 1 <= C -> r <= Nat.min R C ->
+  length (last hist []) = R /\ Forall (fun row => length row = C) (last hist []) ->
+  arr2_of (evolve2d_mode_fixed (pure_rule2 f) store Memo r ty tt hist T)
+  = arr2_of (evolve2d_mode_fixed (pure_rule2 f) store Plain r ty tt hist T).
+Proof.
+  intros f store r ty R C hist T Hum.
+  apply (memo2d_true_fixed_built unit (pure_rule2 f) store f r ty R C (answers_pure f)).
+  intros n n' (g & row & col & Hg & Hr & Hc & ->) (g' & row' & col' & Hg' & Hr' & Hc' & ->).
+  exact (Hum g g' row col row' col' Hg Hg' Hr Hc Hr' Hc').
+Qed.
+
+Theorem C04_memo2d_true_transparent_on_built_neighbourhoods_callable :
+  forall (f : nbhd2 -> Z) (store : Z -> Z) (r : nat) (ty : nbhd_type) (R C : nat) (hist : list grid)
+         (P : Type) (pred : P -> list grid -> nat -> P * bool) (fuel : nat) (p0 : P),
+  (forall g g' row col row' col',
+     (length g = R /\ Forall (fun x => length x = C) g) -> (length g' = R /\ Forall (fun x => length x = C) g') ->
+     row < R -> col < C -> row' < R -> col' < C ->
+     nb_mask (get_neighbourhood g R C r row col ty) = nb_mask (get_neighbourhood g' R C r row' col' ty) ->
+     unmasked (get_neighbourhood g R C r row col ty) = unmasked (get_neighbourhood g' R C r row' col' ty) ->
+     f (get_neighbourhood g R C r row col ty) = f (get_neighbourhood g' R C r row' col' ty)) ->
+  1 <= R -> 1 <= C -> r <= Nat.min R C ->
+  length (last hist []) = R /\ Forall (fun row => length row = C) (last hist []) ->
+  dyn_arr2_of (evolve2d_mode_dynamic (pure_rule2 f) store pred Memo r ty fuel p0 tt hist)
+  = dyn_arr2_of (evolve2d_mode_dynamic (pure_rule2 f) store pred Plain r ty fuel p0 tt hist).
+Proof.
+  intros f store r ty R C hist P pred fuel p0 Hum HR HC Hr Hwf.
+  apply (memo2d_true_dynamic_built unit (pure_rule2 f) store f r ty R C (answers_pure f)); try assumption.
+  intros n n' (g & row & col & Hg & Hr1 & Hc1 & ->) (g' & row' & col' & Hg' & Hr' & Hc' & ->).
+  exact (Hum g g' row col row' col' Hg Hg' Hr1 Hc1 Hr' Hc').
+Qed.
+
 (* _MemoizationCache: for ANY sequence of puts of rectangular arrays, `a in cache` followed by cache[a]
    returns without error the value of a put whose key array has the flat contents AND the shape of a,
    i.e. (arrays being rectangular) IS a: a 3x4 and a 4x3 array with equal bytes are never confused,
@@ -164,3 +208,5 @@ Print Assumptions C04_recursive_step_any_cache.
 Print Assumptions C04_dispatch2d_by_value.
 Print Assumptions C04_evolve2d_dispatch.
 Print Assumptions C04_calls2d_independent.
+Print Assumptions C04_memo2d_true_transparent_on_built_neighbourhoods.
+Print Assumptions C04_memo2d_true_transparent_on_built_neighbourhoods_callable.
